@@ -330,7 +330,12 @@ fn replay_chunk(cases: &[Value], rep: &mut Report) {
       Ok(Err(e)) => rep.mismatch(&format!("key_store/{name}/contract"), case, case["res"].clone(), json!(e), "key-storage contract broken"),
       Ok(Ok((res, post))) => {
         if res != case["res"] || post != case["post"] {
-          rep.mismatch(&format!("key_store/{name}"), case, json!({"res": case["res"], "post": case["post"]}), json!({"res": res, "post": post}), "");
+          // the contract states what a store may accept; refusing a generate/insert/sign the reference accepts, leaving
+          // the store unchanged, is a deviation from the reference, not a breach of the contract
+          let refused_only = matches!(name.as_str(), "generate" | "insert" | "sign")
+            && case["res"]["ok"] == json!(true) && res["ok"] == json!(false) && post == case["pre"];
+          let key = if refused_only { format!("key_store/~{name}_refused") } else { format!("key_store/{name}") };
+          rep.mismatch(&key, case, json!({"res": case["res"], "post": case["post"]}), json!({"res": res, "post": post}), "");
         }
       }
     }
